@@ -498,12 +498,14 @@ pub fn auth(trace: &[Value]) -> Vec<Value> {
     let mut lines: std::collections::BTreeMap<(i64, i64), Vec<Value>> = Default::default();
     let mut first_ipk: Value = json!([]);
     let mut first_cls: Value = json!("gen");
+    let mut retried: std::collections::BTreeMap<(i64, i64), bool> = Default::default();
     for e in trace {
         let ev = e["ev"].as_str().unwrap_or("");
         match ev {
             "Connect" | "Accept" if e["ok"] == true => {
                 let n = e["n"].as_i64().unwrap();
                 let c = e["c"].as_i64().unwrap();
+                retried.remove(&(n, c));
                 let v = lines.entry((n, c)).or_default();
                 v.clear();
                 v.push(json!({"ev":"Reset","run":run,"n":n,"c":c}));
@@ -544,10 +546,18 @@ pub fn auth(trace: &[Value]) -> Vec<Value> {
                     "data"
                 };
                 let same = auth_digest(pre) == auth_digest(post);
+                // a Retry the client followed is a server packet it has accepted, although quinn does not
+                // count it among the authenticated (numbered) packets: later Retry / Version Negotiation
+                // packets must be ignored just as after any other accepted packet
+                let followed = *retried.get(&(n, c)).unwrap_or(&false);
+                if kind == "retry" && !same && e["cls"] == "gen" {
+                    retried.insert((n, c), true);
+                }
                 if let Some(v) = lines.get_mut(&(n, c)) {
                     v.push(json!({"ev":"Rx","kind":kind,"cls":e["cls"],"ipk":ipk,"dfr":dfr,
                         "authed":post["authed"].as_i64().unwrap_or(0) - pre["authed"].as_i64().unwrap_or(0),
-                        "same":same,"stchange":pre["st"] != post["st"],"preauthed":pre["authed"],
+                        "same":same,"stchange":pre["st"] != post["st"],
+                        "preauthed":pre["authed"].as_i64().unwrap_or(0) + if followed { 1 } else { 0 },
                         "open":pre["st"].as_i64().unwrap_or(9) <= 1 && post["st"].as_i64().unwrap_or(9) <= 1
                             && post["err"] != true && e["damaged"] != true,
                         "id":e["id"],"t":e["t"]}));
